@@ -61,6 +61,7 @@ def run(ctx):
     ctx.info['functions_in_scope'] = len(reach)
     check_raises(ctx, reach)
     check_options(ctx)
+    check_option_totality(ctx)
     check_nullness(ctx, reach)
     check_bounds(ctx, reach)
     check_unbound(ctx, reach)
@@ -147,6 +148,73 @@ def _reverse_callers_pass_no_end(ctx, f):
 
 # ---------------------------------------------------------------------------
 # R7.2 options
+
+WEIRD = [None, True, False, 0, 1, -1, 2, 7, 10 ** 6, 2.5, 'x', '', 'upper', 'Upper', 'php', 'sql', '5', '-3', [], [1], {}, (1,), b'x']
+NORMAL_FORM = {
+    'indent_width': lambda v: isinstance(v, int) and not isinstance(v, bool) and v >= 1,
+    'wrap_after': lambda v: isinstance(v, int) and not isinstance(v, bool) and v >= 0,
+    'truncate_strings': lambda v: v is None or (isinstance(v, int) and not isinstance(v, bool) and v > 1),
+    'right_margin': lambda v: v is None or (isinstance(v, int) and not isinstance(v, bool) and v >= 10),
+    'truncate_char': lambda v: isinstance(v, str),
+    'keyword_case': lambda v: v in (None, 'upper', 'lower', 'capitalize'),
+    'identifier_case': lambda v: v in (None, 'upper', 'lower', 'capitalize'),
+    'output_format': lambda v: v in (None, 'sql', 'python', 'php'),
+    'indent_char': lambda v: v in (' ', '\t'),
+}
+
+
+def check_option_totality(ctx):
+    """R7.2g: validate_options and build_filter_stack are interpreted (optmodel) on every option key x a list of ill-typed and
+    boundary values: the outcome is either a dictionary in normal form from which a stack can be built, or SQLParseError."""
+    from .. import optmodel as OM
+    repo = ctx.repo
+    vo = repo.func('sqlparse.formatter.validate_options')
+    b = repo.func('sqlparse.formatter.build_filter_stack')
+    keys = set()
+    for fn in (vo, b):
+        for n in own_nodes(fn.node):
+            if isinstance(n, ast.Call) and isinstance(n.func, ast.Attribute) and n.func.attr == 'get' and n.args and isinstance(n.args[0], ast.Constant) \
+                    and isinstance(n.args[0].value, str):
+                keys.add(n.args[0].value)
+            if isinstance(n, ast.Subscript) and isinstance(n.slice, ast.Constant) and isinstance(n.slice.value, str) and is_name(n.value, fn.params[-1] if fn is b else fn.params[0]):
+                keys.add(n.slice.value)
+    ctx.need(len(keys) >= 15, f'only {len(keys)} option keys found in validate_options/build_filter_stack')
+    contexts = {'truncate_char': {'truncate_strings': 5}, 'indent_width': {'reindent': True}, 'wrap_after': {'reindent': True},
+                'comma_first': {'reindent': True}, 'compact': {'reindent': True}, 'indent_after_first': {'reindent': True},
+                'indent_tabs': {'reindent': True}, 'indent_columns': {}}
+    n = 0
+    for k in sorted(keys):
+        bad = []
+        for w in WEIRD:
+            o = dict(contexts.get(k, {}))
+            o[k] = w
+            n += 1
+            v = OM.validate(ctx, o)
+            if isinstance(v, tuple):
+                if v[0] == 'raise' and v[1] == ('SQLParseError',):
+                    continue
+                bad.append((w, f'validate_options fails with {v}'))
+                continue
+            nf = [(kk, vv) for kk, vv in v.items() if kk in NORMAL_FORM and not NORMAL_FORM[kk](vv)]
+            if nf:
+                bad.append((w, f'accepted, but not in normal form: {nf}'))
+                continue
+            boolkeys = [kk for kk in RF_BOOL if kk in v and not (v[kk] is True or v[kk] is False or v[kk] in (0, 1))]
+            if boolkeys:
+                bad.append((w, f'accepted, but flag(s) {boolkeys} are not boolean'))
+                continue
+            pl = OM.plan(ctx, v)
+            if not isinstance(pl, dict):
+                bad.append((w, f'build_filter_stack fails with {pl}'))
+        ctx.ob('R7.2', f'g:totality:{k}', f'{vo.mod.relpath}:{vo.node.lineno}',
+               f'option {k}: each of {len(WEIRD)} ill-typed/boundary values is rejected with SQLParseError or normalised to a usable value', not bad,
+               '; '.join(f'{k}={w!r}: {why}' for w, why in bad[:3]) + ': the call does not end in a result or SQLParseError')
+    ctx.info['option_values_evaluated'] = n
+
+
+RF_BOOL = ('strip_comments', 'use_space_around_operators', 'strip_whitespace', 'indent_columns', 'reindent', 'reindent_aligned',
+           'indent_tabs', 'indent_after_first', 'comma_first', 'compact')
+
 
 def check_options(ctx):
     repo, folder = ctx.repo, ctx.folder
